@@ -437,7 +437,7 @@ spec fn same_record(a: Record, b: Record) -> bool { a.typ == b.typ && (a.cont is
         }
 //@@ before /high_byte = r\.data\[0\]/
                 proof { assert(r.data@ == f1[1]); }
-//@@ after /r\.data = &r\.data\[1\.\.\];/
+//@@ before /\} else \{/
                 proof {
                     let f2 = frags(*r);
                     assert(f2 =~= adv(next_frag(f1), 1));
